@@ -24,6 +24,7 @@ func (r *Router) parseParamRoute(route *Route) (first string) {
 
 		regexStr := checkAndParseOptional(quotePointChar(path))
 		route.regex = regexp.MustCompile("^" + regexStr + "$")
+		route.goodRegexGroups()
 		return
 	}
 
@@ -77,6 +78,7 @@ func (r *Router) parseParamRoute(route *Route) (first string) {
 	// replace {var} -> regex str
 	regexStr := strings.NewReplacer(varRegex...).Replace(path)
 	route.regex = regexp.MustCompile("^" + regexStr + "$")
+	route.goodRegexGroups()
 	return
 }
 
